@@ -70,9 +70,8 @@ def case_objects(case):
 
     def get(i):
         if i in cust:
-            from harness import c03_data
             t, recipe = cust[i][:2]
-            return (i, t, c03_data.blob(recipe))
+            return (i, t, L.blob(recipe))
         t, d = u[i]
         return (i, t, d)
     return oid, [get(i) for i in case["objs"]], [get(i) for i in case.get("have", [])]
@@ -289,6 +288,17 @@ def observe_read(P, case, w, d, rng):
                 raise AssertionError("membership wrong: " + ",".join(bad[:3]))
             return []
         attempt("contains", lambda: with_pack(None, contains), chk)
+        idxv = case["row"][7]
+        if not w.get("thin") and not (oid == 32 and idxv != 2):
+            # the other index producer (scan of the pack) must write the very same file
+            def rescan(p):
+                pth = os.path.join(d, "rescan.idx")
+                p.data.create_index(pth, version=idxv)
+                with open(pth, "rb") as f1, open(w["idx"], "rb") as f2:
+                    if f1.read() != f2.read():
+                        raise AssertionError(f"PackData.create_index(version={idxv}) differs from the index the writer produced")
+                return []
+            attempt("create_index", lambda: with_pack(None, rescan), chk)
         if w.get("thin") and ext_store is not None:
             # a thin pack is completed by the receiving store, then read from there
             def completed():
@@ -539,6 +549,7 @@ def job_varint(job, P):
     import zlib
     for (t, x, hdr, ofs, leb) in job["states"]:
         n += 1
+        nb = len(bad)
         # encoders
         try:
             base = x if t == 6 else (b"\x11" * 20 if t == 7 else None)
@@ -578,7 +589,9 @@ def job_varint(job, P):
                     bad.append({"fn": "unpack_object_at", "t": t, "x": x, "got": [un.pack_type_num, un.decomp_len, end]})
             except Exception as e:  # noqa: BLE001
                 bad.append({"fn": "unpack_object_at", "t": t, "x": x, "exc": exc_info(e)})
-    return {"n": n, "bad": bad[:50], "nbad": len(bad)}
+        for b in bad[nb:]:
+            b["state"] = [t, x, list(hdr), list(ofs), list(leb)]
+    return {"n": n, "bad": bad[:200], "nbad": len(bad)}
 
 
 # =========================================================================== synthetic indexes
@@ -601,7 +614,7 @@ def job_idx(job, P):
         entries = [(names[i], offs[i], (0x9E3779B1 * (i + 1)) & 0xFFFFFFFF) for i in range(len(names))]
         csum = (hashlib.sha1 if oid == 20 else hashlib.sha256)(b"pack").digest()
         f = io.BytesIO()
-        key = {"firsts": firsts, "offs": offs, "v": v, "oid": oid}
+        key = {"firsts": firsts, "offs": offs, "v": v, "oid": oid, "state": {k: st[k] for k in st if k != "git"}}
         try:
             if v == 1:
                 P.write_pack_index_v1(f, entries, csum)
@@ -750,7 +763,9 @@ def git_scenario(P, sc, d, rng):
     if p.returncode != 0:
         raise RuntimeError("fast-import: " + p.stderr.decode("utf-8", "replace")[-300:])
     # pack-objects
-    args = ["git", f"--git-dir={repo}", "pack-objects", "--stdout", "--revs", f"--depth={sc['depth']}", f"--window={sc['window']}"]
+    # --no-reuse-delta: fast-import has already written deltas of its own; the scenario's depth / window are to decide
+    args = ["git", f"--git-dir={repo}", "pack-objects", "--stdout", "--revs", "--no-reuse-delta", f"--depth={sc['depth']}",
+            f"--window={sc['window']}"]
     if sc["ofs"]:
         args.append("--delta-base-offset")
     revs = b"refs/heads/main\n"
@@ -837,7 +852,7 @@ def git_scenario(P, sc, d, rng):
         attempt("get_raw-shuffled-cache3000",
                 lambda: with_pack(3000, lambda q: conv([[n.decode(), *(lambda td: (td[0], chash(td[1])))(q.get_raw(n))] for n in order])), reads)
         attempt("iterobjects", lambda: with_pack(None, lambda q: conv([read_item(o, fmt) for o in q.iterobjects()])), reads)
-        attempt("check", lambda: with_pack(None, lambda q: (q.check(), conv([read_item(q[n], fmt) for n in hexnames]))[1]), reads)
+        attempt("check", lambda: with_pack(None, lambda q: (q.check(), conv([read_item(o, fmt) for o in q.iterobjects()]))[1]), reads)
 
         def ent(it):
             return [[name_to_id.get(bytes(s).hex(), 2000), L.limb(off), L.crc_pair(crc) if crc is not None else [-1, -1]] for (s, off, crc) in it]
